@@ -285,6 +285,24 @@ def freshness_findings(repo: Repo, R: Resolver, m: ModuleInfo, fn: ast.FunctionD
                 res.add(Finding("C20", "FRESH.argument-returned", m.rel, qual, norm(r),
                                 f"a container {role} returns its argument: the result shares its container with the caller's "
                                 "datum", r.lineno))
+            # anywhere else: the datum is handed back under a type test that admits a MUTABLE class (`isinstance(data, (bytes,
+            # bytearray))`): for a bytearray / list / dict datum the result IS the caller's object
+            if r.value.id == func_params(fn)[0] and _reassigned(fn, r.value.id) is False and not any(s in m.rel for s in CONTAINER_MODULES):
+                p_ = m.parent(r)
+                while p_ is not None and p_ is not fn:
+                    if isinstance(p_, ast.If) and any(r is x for st in p_.body for x in ast.walk(st)):
+                        ttxt = norm(p_.test)
+                        if r.value.id in ttxt and ("isinstance(" in ttxt or "type(" in ttxt):
+                            classes = {nm.id for nm in ast.walk(p_.test) if isinstance(nm, ast.Name)} | \
+                                      {a.attr for a in ast.walk(p_.test) if isinstance(a, ast.Attribute)}
+                            mutable = sorted(classes & {"bytearray", "list", "dict", "set", "deque", "BytesIO", "defaultdict", "OrderedDict",
+                                                        "memoryview", "MutableSequence", "MutableMapping", "MutableSet"})
+                            if mutable:
+                                res.add(Finding("C20", "FRESH.argument-returned", m.rel, qual, f"{norm(r)} under `{ttxt[:60]}`",
+                                                f"the {role} returns its argument under `{ttxt[:80]}`, which admits the mutable class(es) "
+                                                f"{mutable}: the result is the caller's own object -- a later change of the datum changes "
+                                                "the loaded value, two loads of one datum share one buffer", r.lineno))
+                    p_ = m.parent(p_)
     # (a') an ELEMENT of a container built once in the factory is handed out: sound for immutable elements (a str out of a
     # member -> name table), not for elements that are containers themselves (a precomputed list per member)
     def element_is_container(name: str) -> Optional[str]:
